@@ -179,7 +179,7 @@ class C12(Check):
 
     def tasks(self, tier, seed):
         n = 15 if tier == 'quick' else 60
-        per = 40 if tier == 'quick' else 300
+        per = 150 if tier == 'quick' else 1200
         return [('bootstrap',)] + [('corpus',)] + [('hyp', seed * 1000003 + s, per) for s in range(n)]
 
     def compare(self, res, desc, tag, corrupted=False):
@@ -201,7 +201,6 @@ class C12(Check):
             g1 = gen1()
             res.evals += 1
             res.nontrivial.add(h64('bootstrap'))
-            res.nontrivial.add(h64('bootstrap-2'))
             bad = bootstrap_problem()
             res.sample({'bootstrap': 'gen1 (%d bytes) regenerated through a scratch copy of the package' % len(g1._source_code)})
             if bad:
